@@ -159,6 +159,24 @@ class Event:
 
 
 NAMED_CONSTS = {}   # last path segment -> literal text (filled from the dump by mirrun)
+ENUM_VARIANTS = {}  # (enum name, unit variant) -> discriminant, registered by property modules from the source text
+
+
+def register_enum(path, name):
+    """fieldless enum `name` declared in file `path`: variants in declaration order"""
+    src = open(path).read()
+    m = re.search(r"pub enum %s \{(.*?)\n\}" % name, src, re.S)
+    body = re.sub(r"//.*", "", m.group(1))
+    vs = re.findall(r"^\s*(\w+)\s*(?:=\s*(\d+))?,", body, re.M)
+    nxt = 0
+    out = []
+    for v, d in vs:
+        if d:
+            nxt = int(d)
+        ENUM_VARIANTS[(name, v)] = nxt
+        out.append(v)
+        nxt += 1
+    return out
 
 
 class Executor:
@@ -629,6 +647,15 @@ class Executor:
                 if src is not None:
                     self.copy_tree(env, src, "%s.%d" % (c, i))
                 env["%s.%d" % (c, i)] = v
+            if is_ref_write:
+                self.events.append(Event("write", guard, node, place=c, value=None, text=rv))
+            return True
+        # unit variant of an enum whose declaration a property module registered
+        m = re.match(r"^(?:\w+::)*(\w+)::(\w+)$", rv)
+        if m and (m.group(1), m.group(2)) in ENUM_VARIANTS:
+            self.kill(env, c)
+            env["discr(%s)" % c] = Val(bv(ENUM_VARIANTS[(m.group(1), m.group(2))], 64), 64)
+            env[c] = Val(self.ctx.sym("agg." + c, 64), 64)
             if is_ref_write:
                 self.events.append(Event("write", guard, node, place=c, value=None, text=rv))
             return True
